@@ -122,7 +122,7 @@ def search_case(find, notes, algo, param, comp, bspec, kind, minimize, K, seed):
     ff = SequenceFitness(landscape(kind, minimize, K), cap_evals)
     rep = IntRep(cap=20000)
     problem = SingleObjectiveProblem(ff, minimize)
-    rec = Recorder()
+    rec = Recorder(cap=5000)
     tracker = single_tracker(problem, [rec])
     budget = ObservedBudget(make_budget(bspec), ff, cap=400)
     r = NativeRandomSource(seed)
